@@ -54,36 +54,42 @@ def _wrap_stdio():
     sys.__stdin__ = sys.stdin
 
 
-def run(script, argv, cwd, env, stdin=b'', shim_cfg=None, now=None, timeout=20.0,
-        tty=False, workdir=None, trace_path=None, pre_exec=None):
-    """Run REPO/<script> with argv (list of str/bytes) and return a result dict.
+class Handle(object):
+    pass
 
-    stdin: bytes fed to the command (None = closed/empty at once -> EOF)."""
+
+def spawn(script, argv, cwd, env, stdin=b'', shim_cfg=None, now=None, tty=False, workdir=None, keep_fds=()):
+    """fork a child that runs REPO/<script>; returns a Handle (use finish() to collect)"""
     prepare()
-    wd = workdir or tempfile.mkdtemp(prefix='vrun-', dir='/dev/shm' if os.path.isdir('/dev/shm') else None)
-    own_wd = workdir is None
-    p_in = os.path.join(wd, 'in')
-    p_out = os.path.join(wd, 'out')
-    p_err = os.path.join(wd, 'err')
-    p_tr = trace_path or os.path.join(wd, 'trace')
-    with open(p_in, 'wb') as f:
+    h = Handle()
+    h.script = script
+    h.wd = workdir or tempfile.mkdtemp(prefix='vrun-', dir='/dev/shm' if os.path.isdir('/dev/shm') else None)
+    h.own_wd = workdir is None
+    wd = h.wd
+    h.p_in = os.path.join(wd, 'in')
+    h.p_out = os.path.join(wd, 'out')
+    h.p_err = os.path.join(wd, 'err')
+    h.p_tr = os.path.join(wd, 'trace')
+    with open(h.p_in, 'wb') as f:
         f.write(stdin or b'')
-    for p in (p_out, p_err, p_tr):
+    for p in (h.p_out, h.p_err, h.p_tr):
         open(p, 'wb').close()
-    master = slave = None
+    h.master = slave = None
+    h.tty = tty
+    h.stdin = stdin
     if tty:
         import pty
-        master, slave = pty.openpty()
-    t0 = time.time()
+        h.master, slave = pty.openpty()
+    h.t0 = time.time()
     pid = os.fork()
     if pid == 0:
         code = 70
         try:
             os.setsid() if tty else None
-            fi = slave if tty else os.open(p_in, os.O_RDONLY)
-            fo = os.open(p_out, os.O_WRONLY | os.O_APPEND)
-            fe = os.open(p_err, os.O_WRONLY | os.O_APPEND)
-            ft = os.open(p_tr, os.O_WRONLY | os.O_APPEND)
+            fi = slave if tty else os.open(h.p_in, os.O_RDONLY)
+            fo = os.open(h.p_out, os.O_WRONLY | os.O_APPEND)
+            fe = os.open(h.p_err, os.O_WRONLY | os.O_APPEND)
+            ft = os.open(h.p_tr, os.O_WRONLY | os.O_APPEND)
             os.dup2(fi, 0)
             os.dup2(fo, 1)
             os.dup2(fe, 2)
@@ -101,8 +107,6 @@ def run(script, argv, cwd, env, stdin=b'', shim_cfg=None, now=None, timeout=20.0
                 cfg['trace_fd'] = ft
                 sh = shim.Shim(cfg)
                 sh.install()
-            if pre_exec:
-                pre_exec()
             path = os.path.join(REPO, script)
             sys.argv = [path] + [os.fsdecode(a) if isinstance(a, bytes) else a for a in argv]
             try:
@@ -131,30 +135,34 @@ def run(script, argv, cwd, env, stdin=b'', shim_cfg=None, now=None, timeout=20.0
                 pass
         finally:
             os._exit(code & 0xff)
-    # parent
+    h.pid = pid
     if tty:
         os.close(slave)
         if stdin:
-            os.write(master, stdin)
+            os.write(h.master, stdin)
+    return h
+
+
+def finish(h, timeout=20.0):
     status = None
-    deadline = t0 + timeout
+    deadline = h.t0 + timeout
     while True:
-        wpid, st = os.waitpid(pid, os.WNOHANG)
-        if wpid == pid:
+        wpid, st = os.waitpid(h.pid, os.WNOHANG)
+        if wpid == h.pid:
             status = st
             break
         if time.time() > deadline:
-            os.kill(pid, signal.SIGKILL)
-            os.waitpid(pid, 0)
+            os.kill(h.pid, signal.SIGKILL)
+            os.waitpid(h.pid, 0)
             status = 'timeout'
             break
         time.sleep(0.0005)
-    if tty:
+    if h.tty:
         try:
-            os.close(master)
+            os.close(h.master)
         except OSError:
             pass
-    res = {'script': script}
+    res = {'script': h.script}
     if status == 'timeout':
         res['exit'] = None
         res['timeout'] = True
@@ -162,10 +170,10 @@ def run(script, argv, cwd, env, stdin=b'', shim_cfg=None, now=None, timeout=20.0
         res['exit'] = -os.WTERMSIG(status)
     else:
         res['exit'] = os.WEXITSTATUS(status)
-    res['stdout'] = open(p_out, 'rb').read()
-    res['stderr'] = open(p_err, 'rb').read()
+    res['stdout'] = open(h.p_out, 'rb').read()
+    res['stderr'] = open(h.p_err, 'rb').read()
     tr = []
-    with open(p_tr, 'rb') as f:
+    with open(h.p_tr, 'rb') as f:
         for line in f:
             line = line.strip()
             if line:
@@ -175,18 +183,27 @@ def run(script, argv, cwd, env, stdin=b'', shim_cfg=None, now=None, timeout=20.0
                     tr.append({'op': 'garbled', 'raw': [], 'res': None})
     res['trace'] = tr
     res['uncaught'] = b'VERIF-UNCAUGHT' in res['stderr']
-    res['wall'] = time.time() - t0
-    if own_wd:
-        for p in (p_in, p_out, p_err, p_tr):
+    res['wall'] = time.time() - h.t0
+    if h.own_wd:
+        for p in (h.p_in, h.p_out, h.p_err, h.p_tr):
             try:
                 os.unlink(p)
             except OSError:
                 pass
         try:
-            os.rmdir(wd)
+            os.rmdir(h.wd)
         except OSError:
             pass
     return res
+
+
+def run(script, argv, cwd, env, stdin=b'', shim_cfg=None, now=None, timeout=20.0,
+        tty=False, workdir=None, trace_path=None, pre_exec=None):
+    """Run REPO/<script> with argv (list of str/bytes) and return a result dict.
+
+    stdin: bytes fed to the command (empty -> EOF at once)."""
+    h = spawn(script, argv, cwd, env, stdin=stdin, shim_cfg=shim_cfg, now=now, tty=tty, workdir=workdir)
+    return finish(h, timeout)
 
 
 def exit_class(res):
